@@ -519,6 +519,11 @@ func matchFilter(filter Filter, value interface{}) (bool, interface{}, error) {
 				return true, value, nil
 			}
 		}
+		// none of the elements match: the checks below are for scalar values (the pattern check asserts a string),
+		// only a filter that asks for an array can still match the array itself.
+		if filter.Type != "array" {
+			return false, nil, nil
+		}
 	default:
 		// object not supported for now
 		return false, nil, ErrUnsupportedFilter
